@@ -23,9 +23,11 @@ class AlphaVectorPolicy(ValueBasedTabularPOMDPPolicy):
         if isinstance(belief, Distribution):
             b = [belief.get(s, 0.0) for s in self.pomdp.state_list]
         elif isinstance(belief, Belief):
-            ss, b = belief
-            assert len(ss) == len(b)
-        elif isinstance(belief, (list, tuple, np.array)):
+            ss, probs = belief
+            assert len(ss) == len(probs)
+            state_probs = dict(zip(ss, probs))
+            b = [state_probs.get(s, 0.0) for s in self.pomdp.state_list]
+        elif isinstance(belief, (list, tuple, np.ndarray)):
             b = belief
         return b
 
